@@ -164,7 +164,8 @@ func hvEvalLiteralKind() int {
 
 // relPair: two host representations of the same Borno value, if the tree has two.
 // class 0: string vs []rune (same text of n code points); class 1: float64 vs int64;
-// class 2: float64 vs int (numbers restricted to |n| <= 2^53 so that both denote the same number).
+// class 2: float64 vs int (numbers restricted to |n| <= 2^53 so that both denote the same number);
+// class 3: whatever producer n yields vs the canonical representation of the same value.
 func relPair(class int, n int, reach hvKinds) (interface{}, interface{}, bool) {
 	switch class {
 	case 0:
@@ -182,7 +183,7 @@ func relPair(class int, n int, reach hvKinds) (interface{}, interface{}, bool) {
 		i := verifNondetInt64()
 		verifAssume(i >= -9007199254740992 && i <= 9007199254740992)
 		return float64(i), i, true
-	default:
+	case 2:
 		if !reach.lenInt {
 			return nil, nil, false
 		}
@@ -190,6 +191,65 @@ func relPair(class int, n int, reach hvKinds) (interface{}, interface{}, bool) {
 		verifAssume(i >= 0 && i <= 9007199254740992)
 		return float64(i), int(i), true
 	}
+	// class 3: the value is produced by running producer n of the real interpreter on
+	// symbolic arguments; it is paired with the canonical representation (float64 / string)
+	// of the same Borno value. If the producer already yields the canonical representation
+	// the pair is trivial and nothing is compared.
+	got, ok := producedValue(n)
+	if !ok {
+		return nil, nil, false
+	}
+	// the other member of the pair is the same Borno value produced by a literal: what the
+	// real evaluator yields for a literal token carrying that number / text
+	in := NewInterpreter()
+	env := environment.NewEnvironment()
+	if hvIsNum(got) {
+		viaLiteral, _ := in.eval(lit(hvNum(got), 4), env, false)
+		return viaLiteral, got, true
+	}
+	if hvIsStr(got) {
+		viaLiteral, _ := in.eval(lit(hvStr(got), 4), env, false)
+		return viaLiteral, got, true
+	}
+	return nil, nil, false
+}
+
+const numProducers = 16
+
+// producedValue: the result of producer p on symbolic numeric arguments.
+func producedValue(p int) (interface{}, bool) {
+	in := NewInterpreter()
+	env := environment.NewEnvironmentWithParent(in.globals)
+	x, y := verifNondetFloat(), verifNondetFloat()
+	utils.HadError, utils.HadRuntimeError = false, false
+	var got interface{}
+	switch {
+	case p <= 5: // abs sqrt round sin cos tan
+		got, _ = in.eval(callNamed(mathNames[p], 4, lit(x, 4)), env, false)
+	case p <= 8: // pow min max
+		got, _ = in.eval(callNamed(mathNames[p], 4, lit(x, 4), lit(y, 4)), env, false)
+	case p == 9: // length
+		got, _ = in.eval(callNamed(mathNames[10], 4, lit([]interface{}{x, y}, 4)), env, false)
+	case p == 10:
+		got = evaluateBinary(x, tok(token.OR, "|", 4), y)
+	case p == 11:
+		got = evaluateBinary(x, tok(token.LEFT_SHIFT, "<<", 4), y)
+	case p == 12:
+		got = evaluateUnary(tok(token.NOT, "~", 4), x)
+	case p == 13:
+		got = evaluateBinary(x, tok(token.PLUS, "+", 4), y)
+	case p == 14:
+		got = evaluateBinary(x, tok(token.MODULO, "%", 4), y)
+	default: // string concatenation
+		got = evaluateBinary("a", tok(token.PLUS, "+", 4), string(hvText(1)))
+	}
+	failed := utils.HadRuntimeError
+	utils.HadRuntimeError = false
+	verifClearEvents()
+	if failed {
+		return nil, false
+	}
+	return got, true
 }
 
 // sameOutcome: two consumer results denote the same Borno value (under α).
